@@ -94,6 +94,10 @@ class World:
 
     def close(self):
         self.rec.stop()
+        try:
+            mx.stop_stacktrace()
+        except Exception:
+            pass
         if getattr(self, "_c04_home", None):
             import shutil
             shutil.rmtree(self._c04_home, ignore_errors=True)
@@ -866,6 +870,14 @@ class World:
             del s[tuple(k) if len(k) != 1 else k[0]]
         else:
             s.clear_at(*k)
+        return "ok"
+
+    def op_trace(self, op):
+        if op["on"]:
+            mx.start_stacktrace(maxlen=50)
+        else:
+            mx.stop_stacktrace()
+            mx.clear_stacktrace()
         return "ok"
 
     def op_set_recalc(self, op):
